@@ -108,6 +108,10 @@ func runCase(r *ev.Run, idx int) {
 	g.Weights = kvlab.MutationWeights()
 	g.ImportLeases = true
 	g.MaxValue = 24
+	defer func() { r.Count("mutations_with_a_bulk_key_set(15..300 keys)", int64(g.BulkOps)) }()
+	if idx%4 == 2 {
+		g.BulkMax = 129 // hand-overs of whole key ranges: one acknowledged mutation, many keys
+	}
 	var trace []string
 	states := map[string][2]int{} // fingerprint -> first,last op index
 	record := func(i int) {
@@ -214,7 +218,31 @@ func runCase(r *ev.Run, idx int) {
 		}
 		return entryPos{}
 	}
-	for t := 0; t < len(pristine); t++ { // every truncation offset
+	// every offset of the last segment; for a segment made large by bulk hand-overs: every entry
+	// boundary and its neighbours plus 1500 PRNG offsets
+	offsets := make([]int, 0, len(pristine))
+	if len(pristine) <= 4096 {
+		for t := 0; t < len(pristine); t++ {
+			offsets = append(offsets, t)
+		}
+	} else {
+		pick := map[int]bool{}
+		for b := range boundary {
+			for _, t := range []int{b - 1, b, b + 1} {
+				if t >= 0 && t < len(pristine) {
+					pick[t] = true
+				}
+			}
+		}
+		for k := 0; k < 1500; k++ {
+			pick[rng.Intn(len(pristine))] = true
+		}
+		for t := range pick {
+			offsets = append(offsets, t)
+		}
+		sort.Ints(offsets)
+	}
+	for _, t := range offsets { // truncation offsets
 		cls := "boundary"
 		if !boundary[t] {
 			cls = posClass(entryAt(t), t)
@@ -223,8 +251,10 @@ func runCase(r *ev.Run, idx int) {
 	}
 	if len(entries) > 0 {
 		last := entries[len(entries)-1]
-		from := 1
-		for t := from; t < len(pristine); t++ { // the tail from any offset reads as zeros (torn write into a preallocated/zeroed tail)
+		for _, t := range offsets { // the tail from any offset reads as zeros (torn write into a preallocated/zeroed tail)
+			if t < 1 {
+				continue
+			}
 			img := append([]byte{}, pristine...)
 			for i := t; i < len(img); i++ {
 				img[i] = 0
